@@ -1,7 +1,7 @@
 //! Family `fleet` (C19): `Fleet` / `AsyncFleet` retry loops against scripted fake nodes.
 //! Usage: fam_fleet --tier T --seed N --out DIR [--replay FILE]
 //!
-//! A *node* is a TCP endpoint on 127.0.0.1 that follows a script of behaviours, one per *contact*
+//! A *node* is a TCP endpoint on a loopback address private to this process (127.x.y.1) that follows a script of behaviours, one per *contact*
 //! (a connect attempt, or a request arriving on an open connection):
 //!   refused   the port has no listener (a bound, non-listening SO_REUSEPORT placeholder keeps the port)
 //!   atc       the request is read, the connection is closed without a reply            (accept-then-close)
@@ -21,7 +21,7 @@
 use repe::{AsyncFleet, Fleet, FleetOptions, NodeConfig, RepeError, RetryPolicy};
 use repe_verif_harness::frames::{RawFrame, RawHeader};
 use repe_verif_harness::*;
-use std::collections::{HashMap, HashSet};
+use std::collections::HashMap;
 use std::io::{Read, Write};
 use std::net::{Shutdown, TcpListener, TcpStream};
 use std::os::fd::{AsRawFd, FromRawFd, OwnedFd, RawFd};
@@ -88,11 +88,25 @@ fn cvt(r: i32) -> std::io::Result<i32> {
     if r < 0 { Err(std::io::Error::last_os_error()) } else { Ok(r) }
 }
 
+/// Loopback address private to this process: every address in 127.0.0.0/8 is local on Linux `lo`.
+/// Sockets bound to it are invisible to whoever uses 127.0.0.1 (other tests on this machine that
+/// probe "unused" ports, connect to ports of servers they have just stopped, …), and a refused
+/// connect is attributed to a node only if the RST comes from this address.
+fn node_ip() -> [u8; 4] {
+    let pid = std::process::id();
+    [127, 100 + (pid % 100) as u8, 1 + ((pid / 100) % 250) as u8, 1]
+}
+
+fn node_host() -> String {
+    let a = node_ip();
+    format!("{}.{}.{}.{}", a[0], a[1], a[2], a[3])
+}
+
 fn loopback_addr(port: u16) -> libc::sockaddr_in {
     libc::sockaddr_in {
         sin_family: libc::AF_INET as libc::sa_family_t,
         sin_port: port.to_be(),
-        sin_addr: libc::in_addr { s_addr: u32::from_ne_bytes([127, 0, 0, 1]) },
+        sin_addr: libc::in_addr { s_addr: u32::from_ne_bytes(node_ip()) },
         sin_zero: [0; 8],
     }
 }
@@ -104,7 +118,7 @@ fn local_port(fd: RawFd) -> std::io::Result<u16> {
     Ok(u16::from_be(a.sin_port))
 }
 
-/// TCP socket bound to 127.0.0.1:`port` (0 = any); `reuseport` lets the placeholder and the listener share it.
+/// TCP socket bound to `node_ip()`:`port` (0 = any); `reuseport` lets the placeholder and the listener share it.
 fn bound_socket(port: u16, reuseport: bool) -> std::io::Result<(OwnedFd, u16)> {
     unsafe {
         let fd = cvt(libc::socket(libc::AF_INET, libc::SOCK_STREAM | libc::SOCK_CLOEXEC, 0))?;
@@ -138,11 +152,20 @@ fn unread_bytes(fd: RawFd) -> i32 {
 struct Sniffer {
     fd: OwnedFd,
     registry: Mutex<HashMap<u16, Weak<NodeShared>>>,
-    markers: Mutex<HashSet<u16>>,
+    /// per worker thread: a port that always refuses, and how many refusals of it have been sniffed
+    barriers: Mutex<HashMap<u16, u64>>,
     cv: Condvar,
     drops: AtomicU64,
-    barrier_port: u16,
-    _barrier_placeholder: OwnedFd,
+}
+
+struct BarrierHandle {
+    _placeholder: OwnedFd,
+    port: u16,
+    issued: u64,
+}
+
+thread_local! {
+    static BARRIER: std::cell::RefCell<Option<BarrierHandle>> = const { std::cell::RefCell::new(None) };
 }
 
 #[repr(C)]
@@ -187,20 +210,17 @@ impl Sniffer {
             if libc::bind(fd.as_raw_fd(), &sll as *const _ as *const libc::sockaddr, std::mem::size_of::<libc::sockaddr_ll>() as u32) < 0 {
                 return None;
             }
-            let (ph, bport) = bound_socket(0, true).ok()?;
             let s = Arc::new(Sniffer {
                 fd,
                 registry: Mutex::new(HashMap::new()),
-                markers: Mutex::new(HashSet::new()),
+                barriers: Mutex::new(HashMap::new()),
                 cv: Condvar::new(),
                 drops: AtomicU64::new(0),
-                barrier_port: bport,
-                _barrier_placeholder: ph,
             });
             let s2 = s.clone();
             std::thread::Builder::new().name("sniffer".into()).spawn(move || s2.run()).ok()?;
             // self-test: the barrier must come through
-            if !s.barrier() {
+            if s.barrier().is_err() {
                 return None;
             }
             Some(s)
@@ -209,6 +229,7 @@ impl Sniffer {
 
     fn run(&self) {
         let mut buf = vec![0u8; 65536];
+        let ip = node_ip();
         loop {
             let n = unsafe { libc::recv(self.fd.as_raw_fd(), buf.as_mut_ptr() as *mut libc::c_void, buf.len(), 0) };
             if n < 0 {
@@ -220,7 +241,7 @@ impl Sniffer {
             }
             let now = Instant::now();
             let b = &buf[..n as usize];
-            if b.len() < 20 || b[9] != 6 {
+            if b.len() < 20 || b[9] != 6 || b[12..16] != ip {
                 continue;
             }
             let ihl = ((b[0] & 0x0f) as usize) * 4;
@@ -229,16 +250,19 @@ impl Sniffer {
             }
             let t = &b[ihl..];
             let sport = u16::from_be_bytes([t[0], t[1]]);
-            let dport = u16::from_be_bytes([t[2], t[3]]);
             let seq = u32::from_be_bytes([t[4], t[5], t[6], t[7]]);
             let flags = t[13];
             if flags & 0x04 == 0 || flags & 0x10 == 0 || seq != 0 {
                 continue; // not the answer to a SYN on a closed port
             }
-            if sport == self.barrier_port {
-                self.markers.lock().unwrap().insert(dport);
-                self.cv.notify_all();
-                continue;
+            {
+                let mut b = self.barriers.lock().unwrap();
+                if let Some(c) = b.get_mut(&sport) {
+                    *c += 1;
+                    drop(b);
+                    self.cv.notify_all();
+                    continue;
+                }
             }
             let node = self.registry.lock().unwrap().get(&sport).and_then(|w| w.upgrade());
             if let Some(node) = node {
@@ -247,26 +271,37 @@ impl Sniffer {
         }
     }
 
-    /// Everything the kernel emitted on `lo` before this call has been processed when it returns true.
-    fn barrier(&self) -> bool {
-        let Ok((fd, lp)) = bound_socket(0, false) else { return false };
-        let a = loopback_addr(self.barrier_port);
-        let r = unsafe { libc::connect(fd.as_raw_fd(), &a as *const _ as *const libc::sockaddr, std::mem::size_of::<libc::sockaddr_in>() as u32) };
-        if r == 0 {
-            return false;
-        }
-        let deadline = Instant::now() + WATCHDOG;
-        let mut m = self.markers.lock().unwrap();
-        loop {
-            if m.remove(&lp) {
-                return true;
+    /// Everything the kernel emitted on `lo` before this call has been processed when it returns Ok:
+    /// the calling thread provokes one more refusal on a port of its own and waits until the sniffer
+    /// (one thread, packets in order) has counted it.
+    fn barrier(&self) -> Result<(), String> {
+        BARRIER.with(|cell| {
+            let mut cell = cell.borrow_mut();
+            if cell.is_none() {
+                let (ph, port) = bound_socket(0, true).map_err(|e| format!("barrier_bind:{e}"))?;
+                self.barriers.lock().unwrap().insert(port, 0);
+                *cell = Some(BarrierHandle { _placeholder: ph, port, issued: 0 });
             }
-            let now = Instant::now();
-            if now >= deadline {
-                return false;
+            let h = cell.as_mut().unwrap();
+            match TcpStream::connect((node_host().as_str(), h.port)) {
+                Ok(_) => return Err("barrier_connected".into()),
+                Err(e) if e.kind() == std::io::ErrorKind::ConnectionRefused => {}
+                Err(e) => return Err(format!("barrier_errno_{}", e.raw_os_error().unwrap_or(0))),
             }
-            m = self.cv.wait_timeout(m, deadline - now).unwrap().0;
-        }
+            h.issued += 1;
+            let deadline = Instant::now() + WATCHDOG;
+            let mut m = self.barriers.lock().unwrap();
+            loop {
+                if m.get(&h.port).copied().unwrap_or(0) >= h.issued {
+                    return Ok(());
+                }
+                let now = Instant::now();
+                if now >= deadline {
+                    return Err("barrier_timeout".into());
+                }
+                m = self.cv.wait_timeout(m, deadline - now).unwrap().0;
+            }
+        })
     }
 
     fn total_drops(&self) -> u64 {
@@ -283,6 +318,31 @@ impl Sniffer {
 // ------------------------------------------------------------------------------------------
 // scripted node
 // ------------------------------------------------------------------------------------------
+/// Ports owned by live nodes of this process (two SO_REUSEPORT sockets of one user may share a port;
+/// two nodes never must).
+static PORTS: Mutex<Option<HashMap<u16, u64>>> = Mutex::new(None);
+static PORT_COLLISIONS: AtomicU64 = AtomicU64::new(0);
+static NODE_IDS: AtomicU64 = AtomicU64::new(1);
+
+fn claim_port(port: u16, id: u64) -> bool {
+    let mut g = PORTS.lock().unwrap();
+    let m = g.get_or_insert_with(HashMap::new);
+    if m.contains_key(&port) {
+        PORT_COLLISIONS.fetch_add(1, Ordering::SeqCst);
+        return false;
+    }
+    m.insert(port, id);
+    true
+}
+
+fn release_port(port: u16, id: u64) {
+    let mut g = PORTS.lock().unwrap();
+    if let Some(m) = g.as_mut() {
+        if m.get(&port) == Some(&id) {
+            m.remove(&port);
+        }
+    }
+}
 #[derive(Clone, Copy, PartialEq, Eq, Debug)]
 enum Via {
     Connect,
@@ -294,6 +354,7 @@ struct Contact {
     beh: Beh,
     via: Via,
     t: Instant,
+    conn: u64,
 }
 
 struct NodeSt {
@@ -303,6 +364,7 @@ struct NodeSt {
     log: Vec<Contact>,
     desync: bool,
     trouble: Option<String>,
+    token: Vec<u8>,
     idle_pending: usize,
     busy: usize,
     accept_busy: bool,
@@ -315,6 +377,7 @@ struct NodeSt {
 
 struct NodeShared {
     port: u16,
+    id: u64,
     _placeholder: OwnedFd,
     st: Mutex<NodeSt>,
     cv: Condvar,
@@ -323,6 +386,13 @@ struct NodeShared {
 struct Node {
     sh: Arc<NodeShared>,
     sniffer: Option<Arc<Sniffer>>,
+}
+
+impl Drop for NodeShared {
+    fn drop(&mut self) {
+        // runs when the last thread of the node has gone; the placeholder closes right after
+        release_port(self.port, self.id);
+    }
 }
 
 impl NodeSt {
@@ -373,7 +443,7 @@ impl NodeShared {
         let mut st = self.st.lock().unwrap();
         if !st.healthy && st.p < st.script.len() && st.script[st.p] == Beh::Refused {
             st.p += 1;
-            st.log.push(Contact { beh: Beh::Refused, via: Via::Connect, t });
+            st.log.push(Contact { beh: Beh::Refused, via: Via::Connect, t, conn: u64::MAX });
             self.sync_listener(&mut st);
         } else if !st.stop {
             st.desync = true; // a connect was refused although the script wanted the listener up
@@ -444,8 +514,11 @@ fn handle_conn(sh: Arc<NodeShared>, mut s: TcpStream, id: u64) {
         };
         let beh = {
             let mut st = sh.st.lock().unwrap();
+            if req.query != st.token {
+                st.trouble = Some("stranger".into()); // a request that was meant for another node
+            }
             let b = st.next_behaviour();
-            st.log.push(Contact { beh: b, via: Via::Request, t: Instant::now() });
+            st.log.push(Contact { beh: b, via: Via::Request, t: Instant::now(), conn: id });
             if b == Beh::Idle {
                 st.idle_pending += 1;
             }
@@ -543,9 +616,22 @@ fn accept_loop(sh: Arc<NodeShared>) {
 
 impl Node {
     fn new(script: Vec<Beh>, sniffer: Option<Arc<Sniffer>>) -> std::io::Result<Node> {
-        let (ph, port) = bound_socket(0, true)?;
+        let id = NODE_IDS.fetch_add(1, Ordering::SeqCst);
+        let mut held = vec![];
+        let (ph, port) = loop {
+            let (ph, port) = bound_socket(0, true)?;
+            if claim_port(port, id) {
+                break (ph, port);
+            }
+            held.push(ph); // keep it so the kernel offers another port
+            if held.len() > 16 {
+                return Err(std::io::Error::other("no private port"));
+            }
+        };
+        drop(held);
         let sh = Arc::new(NodeShared {
             port,
+            id,
             _placeholder: ph,
             st: Mutex::new(NodeSt {
                 script,
@@ -554,6 +640,7 @@ impl Node {
                 log: vec![],
                 desync: false,
                 trouble: None,
+                token: format!("/m{id}").into_bytes(),
                 idle_pending: 0,
                 busy: 0,
                 accept_busy: false,
@@ -579,6 +666,12 @@ impl Node {
     fn port(&self) -> u16 {
         self.sh.port
     }
+    fn method(&self) -> String {
+        String::from_utf8_lossy(&self.sh.st.lock().unwrap().token).into_owned()
+    }
+    fn set_token(&self, t: &str) {
+        self.sh.st.lock().unwrap().token = t.as_bytes().to_vec();
+    }
     fn exhausted(&self) -> bool {
         let st = self.sh.st.lock().unwrap();
         st.p >= st.script.len()
@@ -603,9 +696,7 @@ impl Node {
     /// close waiting for the client's FIN.
     fn settle(&self) -> Result<(), String> {
         if let Some(s) = &self.sniffer {
-            if !s.barrier() {
-                return Err("barrier".into());
-            }
+            s.barrier()?;
         }
         let deadline = Instant::now() + WATCHDOG;
         let mut clean = 0;
@@ -683,31 +774,31 @@ impl AnyFleet {
             _ => AnyFleet::A(AsyncFleet::with_options(configs, opts).expect("fleet options")),
         }
     }
-    fn call(&self, env: &Env, variant: &str) -> String {
+    fn call(&self, env: &Env, variant: &str, method: &str) -> String {
         let params = serde_json::json!({"x": 1});
         match (self, variant) {
             (AnyFleet::B(f), "json") => {
-                let r = f.call_json("n", "/m", Some(&params)).expect("node exists");
+                let r = f.call_json("n", method, Some(&params)).expect("node exists");
                 class_of_result(&r.value, &r.error)
             }
             (AnyFleet::B(f), "jsonnp") => {
-                let r = f.call_json("n", "/m", None).expect("node exists");
+                let r = f.call_json("n", method, None).expect("node exists");
                 class_of_result(&r.value, &r.error)
             }
             (AnyFleet::B(f), _) => {
-                let r = f.call_message("n", "/m").expect("node exists");
+                let r = f.call_message("n", method).expect("node exists");
                 class_of_result(&r.value, &r.error)
             }
             (AnyFleet::A(f), "json") => {
-                let r = env.rt.block_on(f.call_json("n", "/m", Some(&params))).expect("node exists");
+                let r = env.rt.block_on(f.call_json("n", method, Some(&params))).expect("node exists");
                 class_of_result(&r.value, &r.error)
             }
             (AnyFleet::A(f), "jsonnp") => {
-                let r = env.rt.block_on(f.call_json("n", "/m", None)).expect("node exists");
+                let r = env.rt.block_on(f.call_json("n", method, None)).expect("node exists");
                 class_of_result(&r.value, &r.error)
             }
             (AnyFleet::A(f), _) => {
-                let r = env.rt.block_on(f.call_message("n", "/m")).expect("node exists");
+                let r = env.rt.block_on(f.call_message("n", method)).expect("node exists");
                 class_of_result(&r.value, &r.error)
             }
         }
@@ -754,13 +845,32 @@ enum Verdict {
 fn check_call(kind: &str, max: usize, c: &CallRec, what: &str) -> Verdict {
     let k = kind_name(kind);
     let n = c.contacts.len();
-    let show: Vec<&str> = c.contacts.iter().map(|x| x.beh.name()).collect();
-    let ctx = format!("{what}: node saw [{}], fleet returned {}, max_attempts {}", show.join(","), c.res, max);
+    let show: Vec<String> = c
+        .contacts
+        .iter()
+        .map(|x| {
+            let conn = if x.via == Via::Connect { "connect".to_string() } else { format!("conn{}", x.conn) };
+            format!("{}@{}+{}ms", x.beh.name(), conn, x.t.saturating_duration_since(c.t0).as_millis())
+        })
+        .collect();
+    let ctx = format!(
+        "{what}: node saw [{}], fleet returned {} after {}ms, max_attempts {}",
+        show.join(","),
+        c.res,
+        c.t1.saturating_duration_since(c.t0).as_millis(),
+        max
+    );
     // (1) bounded
     if n > max {
         return Verdict::Fail(format!("fleet.{k}.attempts.exceeds_max"), ctx);
     }
-    // lower bounds of the instants the client sent each attempt
+    // the node read a request only after the fleet call had returned: the client did not wait for the
+    // node (it timed out on a starved node thread); what the node then did is not what the call saw
+    if c.contacts.iter().any(|x| x.via == Via::Request && x.t > c.t1) {
+        return Verdict::Skip("node_lagged".into());
+    }
+    // lower bounds of the instants the client sent each attempt: it moves on when it has seen the
+    // node's action (after the node read the request) or when its timeout fired
     let mut refs = Vec::with_capacity(n);
     let mut r = c.t0;
     for x in &c.contacts {
@@ -768,8 +878,15 @@ fn check_call(kind: &str, max: usize, c: &CallRec, what: &str) -> Verdict {
         r = match (x.beh, x.via) {
             (Beh::Silent, _) => r + T_NODE,
             (Beh::Refused, Via::Connect) => r,
-            _ => x.t.max(r),
+            _ => x.t.max(r).min(r + T_NODE),
         };
+    }
+    // a request the node read T or more after the earliest instant the client can have sent it may
+    // already have been given up by the client (timeout on a starved node thread): not judged
+    for (x, r) in c.contacts.iter().zip(&refs) {
+        if x.via == Via::Request && x.t.saturating_duration_since(*r) >= T_NODE {
+            return Verdict::Skip("node_lagged".into());
+        }
     }
     // (2) a retry follows only a transport failure; (3) the first reply ends the call
     for i in 0..n.saturating_sub(1) {
@@ -828,7 +945,7 @@ fn show_call(c: &CallRec) -> String {
 fn one_call(env: &Env, fleet: &AnyFleet, node: &Node, variant: &str) -> Result<CallRec, String> {
     let n0 = node.log_len();
     let t0 = Instant::now();
-    let res = fleet.call(env, variant);
+    let res = fleet.call(env, variant, &node.method());
     let t1 = Instant::now();
     node.settle()?;
     if let Some(t) = node.trouble() {
@@ -847,11 +964,11 @@ fn run_case(env: &Env, idx: &str, kind: &str, variant: &str, max: usize, seq: &[
     let node = match Node::new(seq.to_vec(), env.sniffer.clone()) {
         Ok(n) => n,
         Err(e) => {
-            out.skip = Some(format!("node:{e}"));
+            out.skip = Some(format!("node_{:?}:{e}", e.kind()));
             return out;
         }
     };
-    let cfg = NodeConfig::new("127.0.0.1", node.port()).unwrap().with_name("n").unwrap().with_timeout(T_NODE).unwrap();
+    let cfg = NodeConfig::new(node_host(), node.port()).unwrap().with_name("n").unwrap().with_timeout(T_NODE).unwrap();
     let fleet = AnyFleet::new(kind, vec![cfg], max, DELAY);
     let mut script_calls = vec![];
     let mut healthy_calls = vec![];
@@ -994,7 +1111,7 @@ fn run_bc(env: &Env, idx: &str, kind: &str, max: usize, nodes: &[BcNode], req: &
         match Node::new(script, env.sniffer.clone()) {
             Ok(x) => live.push(x),
             Err(e) => {
-                out.skip = Some(format!("node:{e}"));
+                out.skip = Some(format!("node_{:?}:{e}", e.kind()));
                 return out;
             }
         }
@@ -1003,19 +1120,24 @@ fn run_bc(env: &Env, idx: &str, kind: &str, max: usize, nodes: &[BcNode], req: &
         .iter()
         .zip(&live)
         .map(|(n, x)| {
-            NodeConfig::new("127.0.0.1", x.port()).unwrap().with_name(n.name.clone()).unwrap().with_tags(n.tags.clone()).with_timeout(T_BCAST).unwrap()
+            NodeConfig::new(node_host(), x.port()).unwrap().with_name(n.name.clone()).unwrap().with_tags(n.tags.clone()).with_timeout(T_BCAST).unwrap()
         })
         .collect();
     let fleet = AnyFleet::new(kind, configs, max, Duration::from_millis(10));
     let params = serde_json::json!({"x": 1});
+    let method = format!("/bc{}", live.first().map_or(0, |x| x.sh.id));
+    for x in &live {
+        x.set_token(&method);
+    }
+    let method = method.as_str();
     let (mut results, mut filtered): (Vec<(String, String)>, Vec<String>) = match &fleet {
         AnyFleet::B(f) => (
-            f.broadcast_json("/m", Some(&params), req).into_iter().map(|(k, r)| (k, class_of_result(&r.value, &r.error))).collect(),
+            f.broadcast_json(method, Some(&params), req).into_iter().map(|(k, r)| (k, class_of_result(&r.value, &r.error))).collect(),
             f.filter_nodes(req).into_iter().map(|n| n.name).collect(),
         ),
         AnyFleet::A(f) => env.rt.block_on(async {
             (
-                f.broadcast_json("/m", Some(&params), req).await.into_iter().map(|(k, r)| (k, class_of_result(&r.value, &r.error))).collect(),
+                f.broadcast_json(method, Some(&params), req).await.into_iter().map(|(k, r)| (k, class_of_result(&r.value, &r.error))).collect(),
                 f.filter_nodes(req).await.into_iter().map(|n| n.name).collect(),
             )
         }),
@@ -1111,7 +1233,7 @@ fn gen_cases(rng: &mut Rng, thorough: bool) -> Vec<String> {
         ops.push(format!("case c{n} {kind} {} {max} {}", variants[n % 3], show_seq(seq)));
     };
     // exhaustive part: every sequence of length <= bound
-    let bounds: Vec<(usize, usize)> = if thorough { vec![(1, 3), (2, 4), (3, 5)] } else { vec![(1, 3), (2, 3)] };
+    let bounds: Vec<(usize, usize)> = if thorough { vec![(1, 3), (2, 4), (3, 5)] } else { vec![(1, 3), (2, 4), (3, 3)] };
     for (max, bound) in &bounds {
         for len in 0..=*bound {
             for seq in all_seqs(len) {
@@ -1121,10 +1243,10 @@ fn gen_cases(rng: &mut Rng, thorough: bool) -> Vec<String> {
             }
         }
     }
-    // sampled part (quick only): longer sequences for max 2 and 3
+    // sampled part (quick only): longer sequences for max 3
     if !thorough {
-        for _ in 0..140 {
-            let max = rng.range(2, 3) as usize;
+        for _ in 0..300 {
+            let max = 3usize;
             let len = rng.range(4, max as u64 + 2) as usize;
             let seq: Vec<Beh> = (0..len).map(|_| *rng.pick(&ALL_BEH)).collect();
             let kind = if rng.chance(1, 2) { "b" } else { "a" };
@@ -1183,7 +1305,7 @@ fn main() {
     out.extra.insert("sniffer".into(), serde_json::json!(env.sniffer.is_some()));
     out.extra.insert("node_timeout_ms".into(), serde_json::json!(T_NODE.as_millis() as u64));
     out.extra.insert("retry_delay_ms".into(), serde_json::json!(DELAY.as_millis() as u64));
-    out.rule = "case = fresh Fleet/AsyncFleet + one scripted node: calls until the script is consumed (at most 2*len+1), then a healthy phase of up to 3 calls; all behaviour sequences over the 7-letter alphabet up to length max+2 (quick: max 1,2 up to length 3 + sampled longer ones for max 2,3; thorough: max 1..3 exhaustive), both fleets, call variants json/jsonnp/msg in rotation; bc = every assignment of tag subsets to up to 3 (thorough 4) nodes x every requested subset (+ one duplicated tag), every 7th with a refusing node. Distinct by op line; non-trivial = a call retried, hit a dead cached client, or returned an error / a broadcast that selects a proper non-empty subset or has a refusing node".into();
+    out.rule = "case = fresh Fleet/AsyncFleet + one scripted node: calls until the script is consumed (at most 2*len+1), then a healthy phase of up to 3 calls; all behaviour sequences over the 7-letter alphabet up to length max+2 (quick: max 1 up to length 3, max 2 up to length 4, max 3 up to length 3 + 300 sampled sequences of length 4-5; thorough: max 1..3 up to length max+2, exhaustive), both fleets, call variants json/jsonnp/msg in rotation; bc = every assignment of tag subsets to up to 3 (thorough 4) nodes x every requested subset (+ one duplicated tag), every 7th with a refusing node. Distinct by op line; non-trivial = a call retried, hit a dead cached client, or returned an error / a broadcast that selects a proper non-empty subset or has a refusing node".into();
     let mut ops: Vec<String> = match args.replay_ops() {
         Some(ops) => ops,
         None => gen_cases(&mut rng, args.thorough()),
@@ -1228,6 +1350,21 @@ fn main() {
         out.count(&format!("retried_case.{}", reason.split(':').next().unwrap_or("?")));
     }
     let results = std::mem::take(&mut *results.lock().unwrap());
+    // report the shortest failing case of each signature first
+    let mut fails: Vec<(String, usize, String, String)> = vec![];
+    for (line, r) in ops.iter().zip(results.iter()) {
+        if let Some(r) = r {
+            if r.skip.is_none() {
+                for (sig, detail) in &r.fails {
+                    fails.push((sig.clone(), line.len(), line.clone(), detail.clone()));
+                }
+            }
+        }
+    }
+    fails.sort();
+    for (sig, _, line, detail) in &fails {
+        out.oracle_fail(sig, detail, &[line.clone()]);
+    }
     for (line, r) in ops.iter().zip(results) {
         let r = r.expect("case result");
         if let Some(reason) = &r.skip {
@@ -1237,11 +1374,12 @@ fn main() {
         for c in &r.counters {
             out.count(c);
         }
-        for (sig, detail) in &r.fails {
-            out.oracle_fail(sig, detail, &[line.clone()]);
-        }
         out.case(line, r.obs.as_deref().unwrap_or("?"), r.nontrivial);
     }
+    if let Some(s) = &env.sniffer {
+        out.extra.insert("sniffer_drops".into(), serde_json::json!(s.total_drops()));
+    }
+    out.extra.insert("port_collisions".into(), serde_json::json!(PORT_COLLISIONS.load(Ordering::SeqCst)));
     out.finish();
     // threads of nodes still winding down are detached; leave at once
     std::process::exit(0);
